@@ -108,6 +108,9 @@ struct Shared {
     budget_used: u64,
     /// Behave like a buffering byte-stream writer: frames reach the peer only after a flush.
     flush_required: bool,
+    /// Copy every frame when it is put on the link (like a real transport), so that neither the
+    /// tap nor the receiving endpoint shares memory with the sender's buffers.
+    copy_frames: bool,
 }
 
 impl Shared {
@@ -234,6 +237,7 @@ impl SimLink {
             budget_exceeded: false,
             budget_used: 0,
             flush_required: false,
+            copy_frames: false,
         }));
         {
             let mut s = shared.lock().unwrap();
@@ -304,6 +308,11 @@ impl SimLink {
         self.shared.lock().unwrap().flush_required = on;
     }
 
+    /// Frames are copied when they enter the link (no memory shared with the sender's buffers).
+    pub fn set_copy_frames(&self, on: bool) {
+        self.shared.lock().unwrap().copy_frames = on;
+    }
+
     /// Sets a total frame budget (both directions). Once exceeded, the sinks never become
     /// ready again, so that a frame-emitting livelock turns into quiescence.
     pub fn set_budget(&self, frames: u64) {
@@ -362,6 +371,7 @@ impl Sink<Bytes> for SimSink {
         let t_ms = s.now_ms();
         let tap = s.tap.clone();
         let flush_required = s.flush_required;
+        let item = if s.copy_frames { Bytes::copy_from_slice(&item) } else { item };
         if item[..] != [3u8] {
             s.budget_used += 1;
         }
